@@ -20,6 +20,7 @@ import (
 	"fmt"
 	"os"
 	"path/filepath"
+	"runtime"
 	"strconv"
 	"strings"
 	"sync"
@@ -146,11 +147,19 @@ func childUsers(f []string, file string) bool {
 		}
 	case "posts":
 		n, _ := strconv.Atoi(f[1])
-		postServer(n)
+		postServer(n, len(f) > 2 && f[2] == "nolog")
+	case "gopost":
+		if postsGo != nil {
+			atomic.StoreInt32(postsGo, 1)
+		}
 	case "closeposts":
 		postsClose <- struct{}{}
 	case "dirappend":
-		dirAppend(f[1])
+		watch := ""
+		if len(f) > 2 {
+			watch = f[2]
+		}
+		dirAppend(f[1], watch)
 	case "stopmix":
 		atomic.StoreInt32(&mixStop, 1)
 	default:
@@ -336,7 +345,7 @@ func sayPairs(tag string, pairs []string) {
 
 // postServer: one server process whose requests post articles on board WhoAmI through the real
 // ptt.NewPost until `stopmix`; every successful post is reported as <returned index>:<file name>.
-func postServer(nPosters int) {
+func postServer(nPosters int, noLog bool) {
 	atomic.StoreInt32(&mixStop, 0)
 	env, err := bbsenv.New(bbsenv.Options{})
 	if err != nil {
@@ -368,14 +377,28 @@ func postServer(nPosters int) {
 	if st != nil {
 		n0 = int(st.Size() / int64(ptttype.FILE_HEADER_RAW_SZ))
 	}
+	logDir := env.Path("boards", "A", ptttype.BN_ALLPOST_s, ".DIR")
+	if noLog {
+		// the log board exists (made by hand) but has no index yet: the first cross-posts create it
+		_ = os.MkdirAll(filepath.Dir(logDir), 0o755)
+		_ = os.Remove(logDir)
+	}
 	var wg sync.WaitGroup
 	res := make([][]string, nPosters)
 	nErr := make([]int, nPosters)
 	firstErr := atomic.Value{}
+	var goPost int32
+	if !noLog {
+		goPost = 1
+	}
+	postsGo = &goPost
 	for g := 0; g < nPosters; g++ {
 		wg.Add(1)
 		go func(g int) {
 			defer wg.Done()
+			for atomic.LoadInt32(&goPost) == 0 && atomic.LoadInt32(&mixStop) == 0 { // released together by `gopost`
+				time.Sleep(50 * time.Microsecond)
+			}
 			user := *su // every request has its own copy of the user record
 			ip := &ptttype.IPv4_t{}
 			copy(ip[:], "127.0.0.1")
@@ -401,7 +424,7 @@ func postServer(nPosters int) {
 			}
 		}(g)
 	}
-	say("posts-started ok %s %d", dirPath, n0)
+	say("posts-started ok %s %d %s", dirPath, n0, logDir)
 	go func() {
 		wg.Wait()
 		errs := 0
@@ -418,15 +441,29 @@ func postServer(nPosters int) {
 	}()
 }
 
+var nOtherLog int
+
 var postsClose = make(chan struct{}, 1)
+var postsGo *int32
 
 // dirAppend: the other server process — appends article entries of its own to the board's .DIR
 // (what a forward / cross-post of a request served there does) until `stopmix`.
-func dirAppend(dirPath string) {
+func dirAppend(dirPath, watch string) {
 	atomic.StoreInt32(&mixStop, 0)
+	size0 := int64(-1)
+	if st, err := os.Stat(watch); err == nil {
+		size0 = st.Size()
+	}
 	say("dir-started")
 	go func() {
 		var res []string
+		// with a watch file: start as soon as that file has grown (the first post of the other process is in)
+		for watch != "" && atomic.LoadInt32(&mixStop) == 0 {
+			if st, err := os.Stat(watch); err == nil && st.Size() > size0 {
+				break
+			}
+			runtime.Gosched()
+		}
 		for seq := 0; atomic.LoadInt32(&mixStop) == 0; seq++ {
 			fh := &ptttype.FileHeaderRaw{}
 			name := fmt.Sprintf("M.%010d.A.OTH", 1000000000+seq)
@@ -449,28 +486,46 @@ func dirAppend(dirPath string) {
 // appends to that board's .DIR. P-hat: the index every successful appender (a post: summary.Aid; the other
 // process: AppendRecord's result) was told is told to nobody else, and the record stored there is its own
 // (file name).
-func postsRun(bin string, nPosters, ms int) {
+func postsRun(bin string, nPosters, ms int) { postsRunX(bin, nPosters, ms, false) }
+
+// logPostsRun: the same with the log board's index (ALLPOST/.DIR) missing at the start: the posters are
+// released together, their cross-posts create it, and the second process starts appending to it as soon as
+// the first post is in. P-hat additionally on the log board's index for the second process's appends.
+func logPostsRun(bin string, nPosters, ms int) { postsRunX(bin, nPosters, ms, true) }
+
+func postsRunX(bin string, nPosters, ms int, noLog bool) {
 	dir, _ := os.MkdirTemp("", "verif-c14q-")
 	defer os.RemoveAll(dir)
 	base := filepath.Join(dir, "posts")
 	op := fmt.Sprintf("posts %d %d", nPosters, ms)
+	extra := ""
+	if noLog {
+		op = fmt.Sprintf("logposts %d %d", nPosters, ms)
+		extra = " nolog"
+	}
 	c := newController([]int{0, 1}, base, bin)
 	defer c.close()
-	l := c.ask(0, 30*time.Second, "posts %d", nPosters)
+	l := c.ask(0, 30*time.Second, "posts %d%s", nPosters, extra)
 	f := strings.Fields(l)
-	if len(f) != 4 || f[0] != "posts-started" || f[1] != "ok" {
+	if len(f) != 5 || f[0] != "posts-started" || f[1] != "ok" {
 		i := run.Op(op, "harness:"+strings.ReplaceAll(l, " ", "_"), "posts", false)
 		run.Fail(i, "harness:posts-setup", "the server process could not set up its environment: "+l)
 		return
 	}
 	dirPath := f[2]
 	n0, _ := strconv.Atoi(f[3])
-	if l := c.ask(1, 10*time.Second, "dirappend %s", dirPath); l != "dir-started" {
+	logDir := f[4]
+	target := dirPath
+	if noLog {
+		target = logDir + " " + dirPath
+	}
+	if l := c.ask(1, 10*time.Second, "dirappend %s", target); l != "dir-started" {
 		i := run.Op(op, "harness:"+strings.ReplaceAll(l, " ", "_"), "posts", false)
 		run.Fail(i, "harness:posts-setup", "the second process did not start: "+l)
 		c.send(0, "stopmix")
 		return
 	}
+	c.send(0, "gopost")
 	time.Sleep(time.Duration(ms) * time.Millisecond) // the length of the run, nothing is decided by it
 	c.send(1, "stopmix") // the other appender first: the posters' last records are then followed by nothing new
 	c.send(0, "stopmix")
@@ -520,6 +575,7 @@ func postsRun(bin string, nPosters, ms int) {
 	}
 	// both processes have stopped appending: the board index is final
 	b, _ := os.ReadFile(dirPath)
+	bLog, _ := os.ReadFile(logDir)
 	if l := c.ask(0, 20*time.Second, "closeposts"); l != "posts-closed" {
 		run.Note("posts: the server process did not confirm closing its environment: " + l)
 	}
@@ -530,7 +586,32 @@ func postsRun(bin string, nPosters, ms int) {
 		}
 		return cstring(b[(idx-1)*sz : (idx-1)*sz+len(ptttype.Filename_t{})])
 	}
-	var fails []failure
+	var logFails []failure
+	if noLog {
+		// the second process appended to the log board's index: its successes are judged there
+		var posts []succ
+		seenLog := map[int]bool{}
+		nBad := 0
+		for _, s := range all {
+			if s.who == "post" {
+				posts = append(posts, s)
+				continue
+			}
+			got := "<none>"
+			if s.idx >= 1 && s.idx*sz <= len(bLog) {
+				got = cstring(bLog[(s.idx-1)*sz : (s.idx-1)*sz+len(ptttype.Filename_t{})])
+			}
+			if got != s.name || seenLog[s.idx] {
+				if nBad++; nBad <= 3 {
+					logFails = append(logFails, failure{"posts:log-lost-record", fmt.Sprintf("the second process was told index %d of the log board's index for %s but the entry stored there is %s (%d entries)", s.idx, s.name, got, len(bLog)/sz)})
+				}
+			}
+			seenLog[s.idx] = true
+		}
+		nOtherLog = len(all) - len(posts)
+		all = posts
+	}
+	fails := append([]failure{}, logFails...)
 	nDup, nLost, nPosts, nOther := 0, 0, 0, 0
 	seen := map[int]succ{}
 	for _, s := range all {
@@ -556,6 +637,9 @@ func postsRun(bin string, nPosters, ms int) {
 	}
 	if len(b)%sz != 0 {
 		fails = append(fails, failure{"posts:torn", fmt.Sprintf("the board index has %d bytes: no whole number of entries", len(b))})
+	}
+	if noLog {
+		nOther = nOtherLog
 	}
 	if nPosts == 0 || nOther == 0 {
 		fails = append(fails, failure{"harness:posts-idle", fmt.Sprintf("%d successful posts, %d appends of the other process: the run shows nothing (%s)", nPosts, nOther, postsDone)})
